@@ -308,6 +308,22 @@ def r4_version(cx):
                  or gb.derives_from_call(gb.term(s)["op"], r"Try>::branch$", through_calls=False) for s in cds)
         okagg = [i for i, blk in enumerate(gb.blocks) for s in blk["s"] if s["k"] == "assign" and s["rv"]["k"] == "agg" and s["rv"].get("adt", "").endswith("headers::pack::PackHeader")]
         ok = ok and bool(okagg) and not any(x in gb.reachable(verr[0]) for x in okagg)
+    if not ok and len(verr) >= 1:
+        # the same gate in another shape (a `match (major, minor)`, a helper returning Result): decided on the MIR by constant
+        # propagation -- with the two bytes read set to (0, 2) only the header is built, with anything else only the error
+        okagg = {i for i, blk in enumerate(gb.blocks) for s in blk["s"] if s["k"] == "assign" and s["rv"]["k"] == "agg" and s["rv"].get("adt", "").endswith("headers::pack::PackHeader")}
+        rds = sorted((i for i, _ in gb.calls(r"Parser>::read_u8$")), key=lambda i: len(gb.dom()[i]))
+        probes = [(v["major"], v["minor"], True), (v["major"], v["minor"] + 1, False), (v["major"] + 1, v["minor"], False), (v["major"], v["minor"] - 1, False), (255, v["minor"], False), (v["minor"], v["major"], False)]
+        for a in range(len(rds)):
+            for c in range(a + 1, len(rds)):
+                good = True
+                for M, m, accept in probes:
+                    r, _ = gb.explore(assume_calls={rds[a]: ("agg", 0, (M,)), rds[c]: ("agg", 0, (m,))})
+                    built, refused = bool(okagg & r), bool(set(verr) & r)
+                    good = good and (built and not refused if accept else refused and not built)
+                if good and okagg:
+                    ok = True
+                    consts, cmp_locals = [(v["major"], v["minor"])], ["read_u8@%s" % gb.ln(rds[a]), "read_u8@%s" % gb.ln(rds[c])]
     cx.ob("R4", "R4/reader", ok, g, "PackHeader::parse compares the two version bytes read from the file with exactly %s and returns VersionError otherwise (compared constants: %s, locals %s)" % ((v["major"], v["minor"]), consts, cmp_locals))
 
 
